@@ -2,6 +2,7 @@
 C13 — Token hold time is honoured (station level).
 -/
 import ProfiVerif.Model.Station
+import ProfiVerif.Lemmas.StationVisit
 
 namespace PV.C13
 open PV
@@ -123,5 +124,55 @@ theorem apps_flag (now : Int) (hp : Bool) :
                 · exact ⟨i, a, rfl⟩
                 · exact hall call hc
           · cases h
+
+/-! ## `visit_bounded`: at most one message cycle after the deadline per token visit -/
+
+open StationVisit
+
+/-- **Per poll, with the flag monotone**: in a poll of a visit (`Station.poll` starting in `UseToken`
+or `AwaitDataResponse`, any inputs) the `first_cycle_done` flag never goes back (`flag` = the flag in
+`UseToken`, `true` in every other state); a poll that starts a message cycle (hands a telegram to the
+PHY) sets it, and is not a poll at or after the deadline with the flag already set. -/
+theorem cycle_sets_flag (s : Station) (apps : Apps) (now : Int) (phyTx : Bool) (rx : Bytes) (c' : Ctx)
+    (hin : inVisit s.st = true) (h : s.poll apps now phyTx rx = .ok c') :
+    (flag s.st = true → flag c'.s.st = true) ∧
+    (c'.tx ≠ none → flag c'.s.st = true ∧ ¬ (deadline s ≤ now ∧ flag s.st = true)) :=
+  poll_visit s apps now phyTx rx c' hin h
+
+/-- **`visit_bounded`**: over ANY sequence of polls of one token visit (arbitrary times — not even
+assumed monotone —, PHY states, received bytes, application scripts, station state at the start of
+the visit), the number of message cycles started at or after the token-hold deadline is at most one. -/
+theorem visit_bounded (s : Station) (apps : Apps) (ins : List (Int × Bool × Bytes)) (n : Nat)
+    (h : lateCycles s apps ins = some n) : n ≤ 1 := by
+  have := lateCycles_flag ins s apps n h
+  omega
+
+/-- … and that one only as the first message cycle of the visit: once the flag is set (any cycle was
+attempted in this visit, or the station awaits a reply) no cycle starts after the deadline any more. -/
+theorem late_cycle_only_first (s : Station) (apps : Apps) (ins : List (Int × Bool × Bytes)) (n : Nat)
+    (hf : flag s.st = true) (h : lateCycles s apps ins = some n) : n = 0 := by
+  have := lateCycles_flag ins s apps n h
+  rw [hf] at this
+  simp at this
+  exact this
+
+/-! Non-vacuity: station 7 with one application that always wants to send an SDN telegram to 9.
+Token received at t = 1000; with the deadline already passed (500) exactly one cycle is performed
+(the guaranteed one), with the deadline at 10000 all three polls start a cycle, none of them late. -/
+def demoS (deadl : Int) : Station :=
+  { (Station.new { address := 7, rate := 500000, slotBits := 200, ttrBits := 20000, gapWait := 10,
+                   hsa := 126, maxRetry := 1, minTsdrBits := 11 }) with
+    online := true, st := .useToken ⟨1000, none⟩ false, lastBusActivity := some 0,
+    lastTokenTime := 1000, endTokenHoldTime := deadl }
+
+def demoApp : List AppAnswer :=
+  List.replicate 3 (.send { da := 9, sa := 7, dsap := none, ssap := none, fc := .request .inactive .sdnLow } [1, 2, 3])
+
+example : lateCycles (demoS 500) [demoApp] [(1000, false, []), (3000, false, []), (5000, false, [])] = some 1 := by
+  decide
+example : lateCycles (demoS 10000) [demoApp] [(1000, false, []), (3000, false, []), (5000, false, [])] = some 0 := by
+  decide
+example : ((demoS 10000).poll [demoApp] 1000 false []).casesOn (fun c => c.tx.isSome) (fun _ => false) = true := by
+  decide
 
 end PV.C13
